@@ -30,11 +30,11 @@ THEOREMS = {
     'C03_builtin_empty': 'empty$ pushes 1 iff the string is missing, empty or white space only; ill-typed: the integer 0 is falsy and gives 1, every other non-string is an AttributeError',
     'C03_builtin_missing': 'missing$ pushes 1 exactly for a missing-field value, 0 for every other value',
     'C03_builtin_chr_to_int': 'chr.to.int$ pushes the code point of a one-character string; ANYTHING else (other length, missing field, integer, function, variable) is a BibTeXError (Python catches the TypeError of ord)',
-    'C03_builtin_int_to_chr': 'int.to.chr$ pushes chr(n) for 0 <= n < 0x110000, BibTeXError outside while n fits a C int, OverflowError (internal) beyond; a non-integer is a TypeError',
+    'C03_builtin_int_to_chr': 'int.to.chr$ pushes the character whose code point is n for 0 <= n < 0x110000 outside the surrogate block (the pushed character really has code point n); a surrogate code point (0xD800-0xDFFF: Python gives a lone surrogate) is outside the model and stops it with an internal error marked unmodelled: - never another character; BibTeXError outside 0..0x10FFFF while n fits a C int, OverflowError (internal) beyond; a non-integer is a TypeError',
     'C03_builtin_int_to_str': 'int.to.str$ pushes the decimal representation; str() of a function/variable object (its repr) is not modelled (internal, marked unmodelled)',
     'C03_builtin_cite_type_preamble': 'cite$ pushes the current key as spelled in the citation list, type$ the entry type, preamble$ the concatenated preamble',
-    'C03_builtin_write': 'write$ appends its operand to the output buffer and emits nothing',
-    'C03_builtin_newline': 'newline$ emits wrap(buffer) and "\\n" and clears the buffer; the stack is untouched',
+    'C03_builtin_write': 'write$ appends its operand to the output buffer and emits nothing; the call is recorded as the event write(x) in the trace of output calls',
+    'C03_builtin_newline': 'newline$ emits wrap(buffer) and "\\n" and clears the buffer; the stack is untouched; the call is recorded as the event newline in the trace of output calls',
     'C03_builtin_warning_top_stack': 'warning$ reports its operand (an integer as its decimal text; repr of an object unmodelled); top$ pops and prints one value of ANY type; stack$ prints and empties the whole stack top first (object print-outs abstracted to the tag <object>)',
     'C03_builtin_substring': 's start len substring$ pushes the documented substring (Spec.substring via C12_substring_spec) for all integers; fewer than three values -> BibTeXError whatever they are; non-integer start -> TypeError; start 0 -> "" whatever the other operands; else non-integer len / non-string s -> TypeError',
     'C03_builtin_text_length': 'text.length$ pushes bibtexLen (C12) or raises the nesting error',
@@ -57,10 +57,15 @@ THEOREMS = {
     'C03_deterministic': 'two finished runs of the same code from the same state agree, whatever the fuel',
     'C03_exec_literals': 'literals push themselves, { } pushes the function, \'name pushes the variable (undefined -> BibTeXError), a name is executed (undefined -> BibTeXError); bodies run left to right',
     'C03_exec_variable': 'executing a global variable pushes its value, an entry variable the value in the current entry frame (default 0 / ""), a field its value or a missing field, a function runs its body',
-    'C03_iterate_order': 'ITERATE {f} is the left fold of "make the entry current; execute f" over the citation list in order',
+    'C03_iterate_order': 'ITERATE {f} is the left fold of "make the entry current; execute f; no entry is current" over the citation list in order',
     'C03_reverse_order': 'REVERSE {f} is the same fold over the reversed citation list',
     'C03_ready': 'READ establishes "database present and every citation in it" (missing entries reported and dropped) without touching variables, entry variables or output; every command preserves it',
     'C03_execute': 'EXECUTE {f} executes f once',
+    'C03_execute_outside_entry': 'no entry is current outside ITERATE / REVERSE: a run starts without one and no command leaves one behind, so EXECUTE {f} runs f outside any entry, where cite$ / type$ / call.type$ / fields / crossref / reading or assigning an entry variable stop with a non-pybtex error - never with the data of some entry (follows the code with the proposed fix C03-1)',
+    'C03_read_spec': 'READ: the reader starts with the MACRO table as initial macros, no person fields and the citations as wanted entries; the database is convertDb of what the reader delivers (the .bib texts parsed one after the other by one reader, or the entries of a bib_format reader); citations = removeMissing (addExtraCitations citations min_crossrefs); preamble$ = the concatenated @preamble texts; reader problems, bad cross-references and missing entries are appended to the reports; nothing else changes',
+    'C03_read_order': 'READ linked to C05 / C14: the database after READ is well formed (DbWF, the hypothesis of the C05 / C14 theorems) whatever the reader delivered; the citation list (iteration order) is Spec.present of Spec.resolved (cited keys in order, * in database order, cross-referenced parents at the threshold, missing keys dropped); exactly the dangling cross-references and missing keys are reported; every listed key has a well-formed entry stored under it',
+    'C03_exec_crossref': 'executing crossref pushes the key of the cross-referenced entry as stored in the database, a missing-field value when the entry has no crossref field or the target is not in the database',
+    'C03_trace': 'the trace of output calls: only write$ / newline$ append to it (each exactly its own event), a command other than EXECUTE / ITERATE / REVERSE touches neither trace nor lines nor buffer, and whatever is executed, the events it appends to the trace are what takes (lines, buffer) from the state before to the state after',
     'C03_strLt_spec': 'the string comparison is code-point lexicographic order, a strict total order (irreflexive, transitive, trichotomous)',
     'C03_sort': 'after SORT the citation list is a permutation of the old one, non-decreasing in sort.key$ (never assigned = ""), stable, nothing else changes; SORT succeeds when all assigned keys are strings',
     'C03_sort_unique': 'sortedness + stability determine the sorted list uniquely',
@@ -73,7 +78,7 @@ THEOREMS = {
     'C03_declare_function': 'FUNCTION binds a fresh name to its body; redeclaring any name is a BibTeXError',
     'C03_declare_globals': 'INTEGERS / STRINGS bind each listed name to a fresh global 0 / "" (overwriting an existing binding, as the pinned code does); all other names unchanged',
     'C03_declare_macro': 'MACRO defines the macro (last definition wins) and changes nothing else',
-    'C03_output': 'the .bbl text of run is the concatenation of the emitted lines = render of the run\'s write/newline events: each newline$ contributes wrap(pending text) + "\\n", text after the last newline$ is discarded',
+    'C03_output': 'the .bbl text of run is the concatenation of the emitted lines = render of the trace of the run, i.e. of the list of write$ / newline$ calls executed, in order (not an existentially quantified event list): each newline$ contributes wrap(text written since the previous newline$) + "\\n", text after the last newline$ is discarded',
     'C03_output_render': 'unfolding of the event semantics: write accumulates, newline emits wrap(pending) + "\\n", events extend the emitted text',
     'C03_output_only_write_newline': 'no built-in other than write$ / newline$ (and the three that execute code) touches the emitted lines or the buffer',
 }
@@ -84,15 +89,36 @@ RULE = ('well-typed straight-line programs: every sequence of up to the tier len
         'depth 0..3 over one operand of each kind (integers 0/1/2, string, missing field, quoted variable, function literal) and of depth '
         '1..2 over every kind of variable object, followed by stack$ newline$ (engine and semantics must agree on ok + same output / '
         'BibTeXError / non-pybtex exception); the golden (bib, bst) pairs of tests/data as corpus; '
+        'second pool (every well-typed sequence of up to two units that uses it): change.case$ modes in either letter case and longer than '
+        'one character, names of fields / variables / built-ins in other letter cases, white space other than the blank (tab, FF, FS, NEL, '
+        'NBSP, EM SPACE, IDEOGRAPHIC SPACE), int.to.chr$ / chr.to.int$ at the edges of their ranges (0, 127, 255, 0xD7FF, 0xE000, 0xFFFF, '
+        '0x10FFFF, a non-BMP character), < and > on strings, lines longer than 79 characters, over two .bib files with style macros, @string, '
+        '# concatenation and two @preamble; systematic families: error outcomes of change.case$ / int.to.chr$ / chr.to.int$ (incl. surrogate '
+        'code points, declared unmodelled), declaration errors of ENTRY / FUNCTION and INTEGERS / STRINGS over existing names (also names '
+        'differing in case only), MACRO redefinition / case variants / shadowing by @string, EXECUTE with effects before and after ITERATE / '
+        'REVERSE / SORT, probes that EXECUTE runs outside any entry, while$ whose predicate leaves negative integers, SORT on keys that differ '
+        'in letter case only / are equal / empty / never assigned, command names in other '
+        'letter cases, a database delivered by another reader (bib_format=YAML) with person fields; '
         'non-trivial = program with at least one built-in; distinct by program text')
 TRUSTED = ['a value pushed by \'name is modelled as a reference by name (differs from the code only when a variable is re-declared while '
            'such a reference is on the stack; never generated)',
            'what top$ / stack$ print for a function or variable object (its Python repr, which may contain a memory address) is abstracted '
            'to the tag <object> on both sides of the comparison',
-           'the .bst text is parsed by the C15 model, the .bib text by the C01 model with person_fields=[] and the MACRO table']
+           'the .bst text is parsed by the C15 model, the .bib text by the C01 model with person_fields=[] and the MACRO table',
+           'family alt-reader: what the YAML reader delivers (entries in file order with their Person objects, preamble) is an input of the '
+           'semantics (read off the real reader), as for C06',
+           'St.trace (the list of write$ / newline$ calls executed) is a ghost component of the model state: nothing in the model reads it, '
+           'the driver does not print it; it is the vocabulary of C03_output / C03_trace']
 ASSUMPTIONS = ['the output is pinned for well-typed programs (Python raises TypeError/AttributeError where BibTeX prints a message); on ill-typed '
                'operands the model follows the pinned Python code: same error class, and the same ordinary result where Python has one',
-               'while$ loops are counter bounded; no non-ASCII letters']
+               'while$ loops are counter bounded; no non-ASCII letters (non-ASCII characters only where no letter case, width table or '
+               'purification is involved)',
+               'int.to.chr$ of a surrogate code point (0xD800-0xDFFF) is outside the model (a Lean Char cannot hold a lone surrogate): the '
+               'model stops with an internal error marked unmodelled: (C03_builtin_int_to_chr) and the check compares the class UNMODELLED only',
+               'a program has at most one READ (format_from_strings closes its StringIO inputs: a second READ raises ValueError there, the '
+               'model reads again)',
+               'the model follows /repo WITH the proposed fix C03-1 (proposed_fixes/C03-1.diff): no entry is current outside ITERATE / '
+               'REVERSE; on a tree without it the clause execute_outside_entry reports the EXECUTE-after-ITERATE defect']
 
 BIB = '''@article{Knuth84, author = {Donald E. Knuth and Leslie Lamport}, title = {The {\\TeX}book: a Guide}, year = 1984, note = "x."}
 @book{lamport:86, author = "Lamport, Leslie", title = "{\\'E}tude in {L}a{T}e{X}", year = {1986}, crossref = {parent}}
@@ -239,8 +265,12 @@ def impl_raw(case):
     old_handler = signal.signal(signal.SIGALRM, _alarm)
     signal.alarm(case.get('timeout', 60))
     try:
+        kw = {}
+        if case.get('bib_format') == 'yaml':
+            from pybtex.database.input.bibyaml import Parser as YamlParser
+            kw['bib_format'] = YamlParser
         with errors.capture() as captured:
-            bbl = format_from_strings(case['bibs'], style=path, citations=list(case['citations']), min_crossrefs=case['min_crossrefs'])
+            bbl = format_from_strings(case['bibs'], style=path, citations=list(case['citations']), min_crossrefs=case['min_crossrefs'], **kw)
         printed = buf.getvalue().split('\n')
         if printed and printed[-1] == '':
             printed.pop()
@@ -265,8 +295,18 @@ def impl_raw(case):
 
 
 def to_request(case):  # noqa: F811
-    return {'op': 'bstrun', 'bst': case['bst'], 'bibs': case['bibs'], 'citations': case['citations'],
-            'min_crossrefs': case['min_crossrefs'], 'fuel': case.get('fuel', FUEL)}
+    req = {'op': 'bstrun', 'bst': case['bst'], 'bibs': case['bibs'], 'citations': case['citations'],
+           'min_crossrefs': case['min_crossrefs'], 'fuel': case.get('fuel', FUEL)}
+    if case.get('bib_format') == 'yaml':
+        # another reader (bib_format=): what it delivers (entries in file order with their persons, preamble) is an input of the semantics
+        from pybtex import errors
+        from pybtex.database import parse_string
+        from props.c01 import canon_db
+        with errors.capture():
+            ydb = parse_string(case['bibs'][0], 'yaml')
+        entries, preamble = canon_db(ydb)
+        req['alt'] = {'entries': entries, 'preamble': preamble}
+    return req
 
 
 def model_out(case, reply):
@@ -284,10 +324,35 @@ def compare_view(io):
     return io
 
 
+def execute_scope_clause(case, io):
+    """From the property text: fields, cite$ / type$ / call.type$ and the per-entry variables exist per entry, ITERATE / REVERSE execute
+    their function once for each entry, EXECUTE executes its function once -- outside any entry.  So an EXECUTE must never show data
+    of an entry or change a per-entry variable (family execute-scope: the probe prints between the markers <| |> / assigns; the
+    following ITERATE {show} prints key:count:label:sort.key$ of every entry)."""
+    if 'scope_probe' not in case or 'error' in io:
+        return []
+    bbl = io.get('bbl', '')
+    if case['scope_probe'] == 'read':
+        if '<|' in bbl:
+            line = [l for l in bbl.split('\n') if '<|' in l][0]
+            return ['execute_outside_entry: EXECUTE {probe} ran with an entry current (no entry is current outside ITERATE / REVERSE): it printed %r; '
+                    'program=%r' % (line, case['bst'][-330:])]
+        return []
+    for line in bbl.split('\n'):
+        if not line:
+            continue
+        key, rest = line.rsplit(':', 3)[0], line.rsplit(':', 3)[1:]
+        want = ['1', key.lower(), ''] if case.get('visited') else ['0', '', '']
+        if rest != want:
+            return ['execute_outside_entry: EXECUTE {probe} changed a per-entry variable of entry %r (count:label:sort.key$ = %r, the ITERATE passes '
+                    'left %r); program=%r' % (key, ':'.join(rest), ':'.join(want), case['bst'][-330:])]
+    return []
+
+
 def oracle(case, io, reply):
     """C03 pins the output: for a well-typed program of the generated family the engine must produce what the semantics
     (the Lean model, tied to the documented built-ins by the C03 theorems) defines."""
-    fails = []
+    fails = execute_scope_clause(case, io)
     mo = model_out(case, reply)
     if ('error' in io and io['error'][0] == 'OUT-OF-FUEL') or ('error' in mo and mo['error'][0] == 'OUT-OF-FUEL'):
         return fails
@@ -506,8 +571,416 @@ def illtyped_cases():
     return out
 
 
+# ======================================================================================================================
+# second wave (review f): regions of the input domain the first pools never reached
+# ======================================================================================================================
+LONG = ('This abstract is deliberately longer than seventy-nine characters so that newline$ has to wrap the line it emits, '
+        'more than once, and a_very_long_unbreakable_word_that_is_itself_longer_than_the_line_width_of_seventy_nine_characters_ follows')
+# two .bib files; field / type names in other letter cases than the style uses; macros from the style (MACRO) and from the file
+# (@string) joined with '#', a file @string shadowing a style MACRO, a style MACRO shadowing a month; two @preamble commands; a
+# repeated key in the second file; a blank and an empty field; a field longer than 79 characters
+BIB2A = ('@preamble{"\\newcommand{\\noop}[1]{}" # " pre"}\n'
+         '@string{pub = "Publisher " # "House"}\n'
+         '@string{foo = "shadowed by the file"}\n'
+         '@Article{Knuth84, Author = {Donald E. Knuth and Leslie Lamport}, TITLE = {The {\\TeX}book: a Guide}, year = 1984,\n'
+         '  note = foo # " and " # bar # ", " # jan # " / " # BAZ # feb, Abstract = {' + LONG + '}}\n'
+         '@book{lamport:86, author = "Lamport, Leslie", title = "{\\\'E}tude in {L}a{T}e{X}", year = {1986}, crossref = {parent},\n'
+         '  note = {  }, publisher = pub, abstract = {}}\n')
+BIB2B = ('@preamble{" second"}\n'
+         '@misc{parent, title = {Parent Title}, note = {inherited note}, booktitle = {B}, abstract = pub # { again}, month = mar}\n'
+         '@misc{Knuth84, title = {a repeated key in the second file}}\n'
+         '@MISC{unused, title = {U}}\n')
+MACROS2 = ('MACRO {bar} {"Bar"}\nMACRO {foo} {"from the style"}\nMACRO {jan} {"January"}\nMACRO {baz} {"first"}\nMACRO {baz} {"second"}\n'
+           'MACRO {mar} {"March (style)"}\n')
+HEADER2 = ('ENTRY { title author year note booktitle Abstract publisher month } { count } { label }\n'
+           'INTEGERS { gi gj }\nSTRINGS { gs gt }\n' + MACROS2)
+
+X = 'X'     # a string that may hold non-ASCII characters: consumed only where no letter case / width table / purification is involved
+UNITS2 = (
+    # white space other than the blank; control characters; code points at the edges of the ranges of chr()
+    [('"\t"', [], [S]), ('" \t "', [], [S]), ('"a\tb"', [], [S]), ('"Ab Cd"', [], [S])] +
+    [('#%d int.to.chr$' % n, [], [S]) for n in (0, 9, 12, 28, 32, 127)] +
+    # (a line feed is typed X only because the harness splits what top$ prints at line feeds)
+    [('#%d int.to.chr$' % n, [], [X]) for n in (10, 133, 160, 255, 8195, 12288, 55295, 57344, 65535, 1114111)] +
+    [('"\U0001D538"', [], [X]), ('" "', [], [X]), ('"  \t"', [], [X]), ('""', [], [X]), ('"ab"', [], [X])] +
+    [('empty$', [X], [I]), ('missing$', [X], [I]), ('duplicate$', [X], [X, X]), ('pop$', [X], []), ('*', [X, X], [X]),
+     ('=', [X, X], [I]), ('<', [X, X], [I]), ('>', [X, X], [I]), ('text.length$', [X], [I]), ('#1 #1 substring$', [X], [X]),
+     ('swap$', [X, X], [X, X])] +
+    # < and > on strings
+    [('<', [S, S], [I]), ('>', [S, S], [I])] +
+    # change.case$ modes: only the first character counts, in either case
+    [('"%s" change.case$' % m, [S], [S]) for m in ('T', 'L', 'U', 'title', 'Lower', 'UPPER', 'tx', 'Ux')] +
+    # names are case-insensitive: fields, global / entry variables, built-ins
+    [('TITLE', [], [S]), ('Title', [], [S]), ('abstract', [], [S]), ('ABSTRACT', [], [S]), ('publisher', [], [S]), ('month', [], [S]),
+     ('abstract " " * abstract *', [], [S]), ('title " -- " * abstract *', [], [S]),
+     ("'GI :=", [I], []), ('Gi', [], [I]), ('GI', [], [I]), ("'Gs :=", [S], []), ('GS', [], [S]),
+     ("'Count :=", [I], []), ('COUNT', [], [I]), ("'LABEL :=", [S], []), ('Label', [], [S]),
+     ("'SORT.KEY$ :=", [S], []), ('Sort.Key$', [], [S]), ('Crossref', [], [S]), ('CITE$', [], [S]), ('Type$', [], [S]),
+     ('PREAMBLE$', [], [S]), ('Quote$', [], [S]), ('GLOBAL.MAX$', [], [I]), ('Entry.Max$', [], [I]),
+     ('Int.To.Str$', [I], [S]), ('DUPLICATE$', [S], [S, S]), ('Swap$', [S, S], [S, S]), ('POP$', [I], []), ('EMPTY$', [S], [I]),
+     ('MISSING$', [S], [I]), ('Text.Length$', [S], [I]), ('PURIFY$', [S], [S]), ('Add.Period$', [S], [S]), ('WIDTH$', [S], [I]),
+     ('#2 #3 SUBSTRING$', [S], [S]), ('#3 TEXT.PREFIX$', [S], [S]), ('NUM.NAMES$', [S], [I]), ('#1 "{ll}" FORMAT.NAME$', [S], [S]),
+     ('"l" CHANGE.CASE$', [S], [S]), ('{ "yes" } { "no" } IF$', [I], [S]), ("'Skip$ 'SKIP$ If$", [I], []), ('WRITE$', [S], []),
+     ('NewLine$', [], []), ('WARNING$', [S], []), ('TOP$', [S], []), ('SKIP$', [], []), ('"a" CHR.TO.INT$', [], [I]),
+     ('#66 INT.TO.CHR$', [], [S]), ('#1 #2 + #3 -', [], [I]), ('"a" "b" *', [], [S])])
+# chr.to.int$ on every string of the pool that has exactly one character
+UNITS2 += [(u[0] + ' chr.to.int$', [], [I]) for u in UNITS2 if u[1] == [] and u[2] in ([S], [X]) and
+           (u[0].endswith('int.to.chr$') or u[0] in ('"\U0001D538"', '" "', '"\t"'))]
+
+
+def dump_code2(types):
+    return ' '.join('int.to.str$ write$ newline$' if t == I else '"[" swap$ * "]" * write$ newline$' for t in reversed(types))
+
+
+def mk2(body, types, family, cites=None):
+    src = HEADER2 + 'FUNCTION {main} { %s %s }\nREAD\nITERATE {main}\n' % (body, dump_code2(types))
+    return {'op': 'bstrun', 'bst': src, 'bibs': [BIB2A, BIB2B], 'citations': CITES if cites is None else cites, 'min_crossrefs': 2, 'family': family,
+            'welltyped': True}
+
+
+def pool2_sequences(maxlen=2):
+    """All well-typed sequences of at most `maxlen` units over the first and the second pool that use the second pool."""
+    second = set(id(u) for u in UNITS2)
+    allu = UNITS + UNITS2
+
+    def rec(prefix, stack, depth, used):
+        if used:
+            yield prefix, stack
+        if depth == maxlen:
+            return
+        for u in allu:
+            pops = u[1]
+            if len(stack) >= len(pops) and (not pops or stack[-len(pops):] == pops):
+                yield from rec(prefix + [u[0]], stack[:len(stack) - len(pops)] + u[2], depth + 1, used or id(u) in second)
+    yield from rec([], [], 0, False)
+
+
+def full_program(lines, family, bibs=None, cites=None, errclass=False, unmodelled_=False, mc=2, **kw):
+    c = {'op': 'bstrun', 'bst': '\n'.join(lines) + '\n', 'bibs': bibs if bibs is not None else [BIB2A, BIB2B],
+         'citations': CITES if cites is None else cites, 'min_crossrefs': mc, 'family': family}
+    if errclass:
+        c.update({'errclass': True, 'fuel': 20000, 'timeout': 20})
+        if unmodelled_:
+            c['unmodelled'] = True
+    else:
+        c['welltyped'] = True
+    c.update(kw)
+    return c
+
+
+SHOW = 'FUNCTION {show} { cite$ ":" * count int.to.str$ * ":" * label * ":" * sort.key$ * ":" * gi int.to.str$ * ":" * gs * write$ newline$ }'
+DECLS = ['ENTRY { title note } { count } { label }', 'INTEGERS { gi gj }', 'STRINGS { gs gt }']
+
+
+def errors_family():
+    """Built-ins on operands where the documented outcome is an error (or the edge of one): engine and semantics must agree on
+    ok + same output / BibTeXError / non-pybtex exception."""
+    out = []
+
+    def one(body, unm=False):
+        out.append(full_program(DECLS + ['FUNCTION {main} { %s stack$ newline$ }' % body, 'READ', 'ITERATE {main}'], 'errors', errclass=True,
+                                unmodelled_=unm, cites=['Knuth84'], bibs=[BIB]))
+    for m in ('x', '', '1', ' t', 'X', '{t}', '\t'):
+        one('"ab" "%s" change.case$' % m)
+        one('title "%s" change.case$ write$' % m)
+    for n in (-1, -2, 1114112, 1114113, 2147483647, 2147483648, -2147483648, -2147483649, 10 ** 12, 55295, 57344, 1114111, 0):
+        one('#%d int.to.chr$ chr.to.int$' % n)
+        one('#%d int.to.chr$ pop$ "after"' % n)
+    for n in (55296, 55297, 56320, 57343):         # surrogates: outside the model (Lean's Char has no surrogates), declared as such
+        one('#%d int.to.chr$ chr.to.int$' % n, unm=True)
+        one('#%d int.to.chr$ pop$ "after"' % n, unm=True)
+    for x in ('', 'ab', 'abc', '  ', 'a', ' ', '\U0001D538', '\U0001D538\U0001D538', '\t'):
+        one('"%s" chr.to.int$' % x)
+    one('note chr.to.int$')
+    one('booktitle chr.to.int$')           # undefined name
+    one("'nosuch")
+    one('nosuch')
+    return out
+
+
+def declaration_family():
+    """Declaration errors: a name (up to letter case) is declared twice by ENTRY / FUNCTION (BibTeXError), INTEGERS / STRINGS over
+    an existing name (the pinned code overwrites silently), and correct declarations next to them."""
+    out = []
+    tail = ['FUNCTION {main} { %s stack$ newline$ }', 'READ', 'ITERATE {main}']
+
+    def prog(decls, body='cite$'):
+        out.append(full_program(decls + [t % body if '%s' in t else t for t in tail], 'declarations', errclass=True, cites=['Knuth84'], bibs=[BIB]))
+    E, GI, GS = DECLS
+    # FUNCTION redeclared / over another kind of name / names differing only in case
+    for n in ('f', 'F', 'title', 'TITLE', 'count', 'Count', 'label', 'gi', 'GI', 'gs', 'crossref', 'CrossRef', 'sort.key$', 'SORT.KEY$',
+              'skip$', 'Skip$', 'global.max$', 'entry.max$', 'newname', ':=', 'main'):
+        prog([E, GI, GS, 'FUNCTION {f} { skip$ }', 'FUNCTION {%s} { #1 }' % n])
+    # ENTRY: repeated names, crossref, built-ins, an earlier declaration
+    for e in ('ENTRY { title Title } { } { }', 'ENTRY { title } { title } { }', 'ENTRY { title } { } { TITLE }', 'ENTRY { crossref } { } { }',
+              'ENTRY { } { crossref } { }', 'ENTRY { } { } { CROSSREF }', 'ENTRY { } { } { sort.key$ }', 'ENTRY { } { Sort.Key$ } { }',
+              'ENTRY { skip$ } { } { }', 'ENTRY { } { entry.max$ } { }', 'ENTRY { title } { count count } { }', 'ENTRY { title } { count } { Count }',
+              'ENTRY { title } { a b } { c d }', 'ENTRY { } { } { }', 'ENTRY { title note } { count } { label }'):
+        prog([e])
+        prog([GI, e], body='gi')
+        prog(['FUNCTION {title} { #1 }', e], body='title')
+        prog(['INTEGERS { Title }', e], body='title')
+    prog([E, E])
+    prog([E, 'ENTRY { other } { } { }'])           # a second ENTRY declares crossref again
+    # INTEGERS / STRINGS over a built-in, a field, a function, an entry variable, each other; names differing only in case
+    for kind, read in (('INTEGERS', 'int.to.str$'), ('STRINGS', '"<" swap$ * ">" *')):
+        for n in ('skip$', 'SKIP$', 'title', 'Title', 'f', 'F', 'count', 'label', 'crossref', 'sort.key$', 'gi', 'Gi', 'gs', 'GS',
+                  'global.max$', 'newline$', 'fresh'):
+            prog([E, GI, GS, 'FUNCTION {f} { "function f" }', '%s { %s }' % (kind, n)], body='%s %s' % (n, read))
+            prog([E, GI, GS, 'FUNCTION {f} { "function f" }', '%s { %s }' % (kind, n)], body="title f gi gs count label")
+        prog([E, '%s { a A }' % kind], body='a %s' % read)
+        prog([E, '%s { a b a }' % kind], body='b %s' % read)
+    prog([E, 'INTEGERS { v }', 'STRINGS { V }'], body='v')
+    prog([E, 'STRINGS { v }', 'INTEGERS { V }'], body='#3 \'v := V')
+    # a global assigned, then re-declared: the new variable starts at 0 / ""
+    out.append(full_program([E, GI, 'FUNCTION {set} { #7 \'gi := }', 'READ', 'EXECUTE {set}', 'INTEGERS { GI }',
+                             'FUNCTION {main} { gi stack$ newline$ }', 'ITERATE {main}'], 'declarations', errclass=True, cites=['Knuth84'], bibs=[BIB]))
+    return out
+
+
+def macro_family(rng, n):
+    """MACRO: redefinition (the last definition wins), names in other letter cases, macros used by the .bib with '#', a style macro
+    shadowed by a file @string and the other way round, a month redefined by the style, an undefined macro."""
+    out = []
+    names = ['foo', 'Foo', 'FOO', 'bar', 'jan', 'JAN', 'Jan', 'x.y', 'mar']
+    vals = ['A', 'b b', '', 'Value {X}', 'jan', '1']
+    show = 'FUNCTION {main} { cite$ ":" * note * ":" * title * ":" * month * ":" * preamble$ * write$ newline$ }'
+
+    def one(macros, bib, fam='macro'):
+        out.append(full_program(['ENTRY { title note month } { } { }'] + ['MACRO {%s} {"%s"}' % m for m in macros] + [show, 'READ', 'ITERATE {main}'],
+                                fam, bibs=bib, cites=['*']))
+    uses = ['foo', 'FOO', 'foo # bar', 'bar # " + " # foo # jan', 'jan', 'Jan # "." # feb', '"lit" # foo', 'foo # {braced} # foo', 'x.y', 'nosuch',
+            'nosuch # foo']
+    # systematic: every pair of definitions of `foo` in two spellings x every use
+    for a, b in itertools.product(['foo', 'Foo', 'FOO'], repeat=2):
+        for u in uses[:4]:
+            one([(a, 'first'), (b, 'second')], ['@misc{k, note = %s, title = foo, month = jan}\n' % u])
+    for u in uses:
+        one([('foo', 'A'), ('bar', 'B'), ('foo', 'C'), ('x.y', 'dotted'), ('jan', 'Januar')], ['@misc{k, note = %s, title = {t}, month = JAN}\n' % u])
+        one([], ['@string{foo = "file"}\n@misc{k, note = %s, title = {t}}\n' % u])
+        one([('foo', 'style')], ['@string{foo = "file"}\n@misc{k, note = %s, title = foo}\n@string{FOO = "file2"}\n@misc{k2, note = %s, title = Foo}\n' % (u, u)])
+        one([('foo', 'style')], ['@misc{k, note = %s, title = foo}\n' % u, '@string{foo = "second file"}\n@misc{k2, note = %s, title = foo}\n' % u])
+        one([('foo', 'style'), ('bar', 'style bar')], ['@string{bar = foo # "+"}\n@preamble{foo # bar # jan}\n@misc{k, note = %s, title = bar}\n' % u])
+    for _ in range(n):
+        ms = [(rng.choice(names), rng.choice(vals)) for _ in range(rng.randint(0, 5))]
+        bib = ''
+        for i in range(rng.randint(1, 3)):
+            if rng.random() < 0.4:
+                bib += '@string{%s = %s}\n' % (rng.choice(names[:5]), ' # '.join(rng.choice(['"s%d"' % i, '{b}'] + names[:6]) for _ in range(rng.randint(1, 2))))
+            if rng.random() < 0.3:
+                bib += '@preamble{%s}\n' % ' # '.join(rng.choice(['"p"', '{ q }'] + names[:5]) for _ in range(rng.randint(1, 3)))
+            bib += '@misc{k%d, note = %s, title = %s, month = %s}\n' % (
+                i, ' # '.join(rng.choice(['" l "', '{r}', '12'] + names) for _ in range(rng.randint(1, 4))), rng.choice(names + ['{T}']),
+                rng.choice(['jan', 'FEB', 'mar', '{m}', 'foo']))
+        one(ms, [bib] if rng.random() < 0.6 else [bib, bib.replace('{k', '{j')], 'macro-random')
+    return out
+
+
+def execute_family(rng, n):
+    """EXECUTE with an effect, before and after READ / ITERATE / REVERSE / SORT: global variables persist from command to command,
+    output is written in command order, entry variables set by ITERATE are still there in the next pass."""
+    out = []
+    fns = {'init': '#3 \'gi := "begin" \'gs := "BEGIN" write$ newline$',
+           'bump': "gi #10 + 'gi := gs \"+\" * 'gs :=",
+           'fin': '"END " gi int.to.str$ * ":" * gs * write$ newline$',
+           'half': '"no newline yet"  write$',
+           'longline': '"%s" write$ gs write$ newline$' % LONG[:150],
+           'visit': "cite$ \":\" * gi int.to.str$ * \":\" * gs * write$ newline$ gi #1 + 'gi := gi 'count := cite$ \"l\" change.case$ 'label := title 'sort.key$ :=",
+           'show': 'cite$ ":" * count int.to.str$ * ":" * label * ":" * sort.key$ * ":" * gi int.to.str$ * ":" * gs * write$ newline$'}
+    head = DECLS + ['FUNCTION {%s} { %s }' % kv for kv in fns.items()]
+    cmds = ['EXECUTE {init}', 'EXECUTE {bump}', 'EXECUTE {fin}', 'EXECUTE {half}', 'EXECUTE {longline}', 'ITERATE {visit}', 'REVERSE {visit}',
+            'ITERATE {show}', 'REVERSE {show}', 'SORT', 'EXECUTE {newline$}', 'EXECUTE {skip$}', 'execute {fin}', 'Execute {bump}']
+    fixed = [['READ', 'EXECUTE {init}', 'ITERATE {visit}', 'EXECUTE {fin}', 'ITERATE {show}'],
+             ['EXECUTE {init}', 'READ', 'ITERATE {visit}', 'EXECUTE {bump}', 'REVERSE {visit}', 'EXECUTE {fin}', 'SORT', 'ITERATE {show}', 'EXECUTE {fin}'],
+             ['EXECUTE {init}', 'EXECUTE {fin}'], ['EXECUTE {half}', 'EXECUTE {fin}', 'READ', 'EXECUTE {half}'],
+             ['READ', 'ITERATE {visit}', 'EXECUTE {half}', 'ITERATE {show}', 'EXECUTE {newline$}'],
+             ['READ', 'EXECUTE {longline}', 'ITERATE {visit}', 'EXECUTE {longline}']]
+    for f in fixed:
+        for cites in (CITES, ['*'], []):
+            out.append(full_program(head + f, 'execute', cites=cites))
+    for _ in range(n):
+        k = rng.randint(2, 7)
+        seq = [rng.choice(cmds) for _ in range(k)]
+        seq.insert(rng.randint(0, 2), 'READ')
+        # ITERATE / REVERSE / SORT need the database
+        r = seq.index('READ')
+        seq = [c for i, c in enumerate(seq) if i >= r or c.upper().startswith('EXECUTE')]
+        out.append(full_program(head + seq, 'execute', cites=rng.choice([CITES, ['*'], ['parent', 'Knuth84', 'unused'], []])))
+    return out
+
+
+# probes for "EXECUTE runs outside any entry": (function body, kind); kind 'read' = the body prints something that belongs to an
+# entry between the markers <| and |>, 'write' = it assigns a per-entry variable
+SCOPE_PROBES = [('"<|" cite$ * "|>" * write$ newline$', 'read'), ('"<|" title * "|>" * write$ newline$', 'read'),
+                ('"<|" type$ * "|>" * write$ newline$', 'read'), ('"<|" crossref * "|>" * write$ newline$', 'read'),
+                ('"<|" count int.to.str$ * "|>" * write$ newline$', 'read'), ('"<|" label * "|>" * write$ newline$', 'read'),
+                ('"<|" sort.key$ * "|>" * write$ newline$', 'read'), ('"<|" note missing$ int.to.str$ * "|>" * write$ newline$', 'read'),
+                ('call.type$', 'read'), ("#5 'count :=", 'write'), ('"L" \'label :=', 'write'), ('"K" \'sort.key$ :=', 'write'),
+                ("gi 'count := \"g\" 'label :=", 'write')]
+
+
+def execute_scope_family():
+    """EXECUTE {f} where f touches what exists per entry only (cite$, type$, fields, crossref, entry variables, call.type$), before
+    the first ITERATE and after an ITERATE / REVERSE / SORT: there is no current entry outside ITERATE / REVERSE."""
+    out = []
+    fns = ['FUNCTION {visit} { cite$ "l" change.case$ \'label := #1 \'count := }', 'FUNCTION {noop} { skip$ }',
+           'FUNCTION {misc} { "<|type " type$ * "|>" * write$ newline$ }', 'FUNCTION {default.type} { "<|default " cite$ * "|>" * write$ newline$ }',
+           'FUNCTION {show} { cite$ ":" * count int.to.str$ * ":" * label * ":" * sort.key$ * write$ newline$ }']
+    befores = [[], ['ITERATE {noop}'], ['REVERSE {noop}'], ['ITERATE {noop}', 'SORT'], ['ITERATE {visit}'], ['EXECUTE {noop}'],
+               ['ITERATE {noop}', 'EXECUTE {noop}']]
+    for body, kind in SCOPE_PROBES:
+        for before in befores:
+            for cites in (CITES, ['parent'], []):
+                lines = DECLS + fns + ['FUNCTION {probe} { %s }' % body, 'READ'] + before + ['EXECUTE {probe}', 'ITERATE {show}']
+                out.append(full_program(lines, 'execute-scope', bibs=[BIB], cites=cites, errclass=True, scope_probe=kind,
+                                        visited=('ITERATE {visit}' in before)))
+    return out
+
+
+def while_family():
+    """while$ whose predicate leaves integers below 0 (the loop ends on every value <= 0, not only on 0), nested loops, a loop whose
+    body runs zero times."""
+    out = []
+    for start in (-3, -2, -1, 0, 1, 3):
+        for pred in ('gi', 'gi #0 +', '#0 gi - #0 swap$ -', 'gi #1 -', 'gi #2 - #1 +'):
+            body = ("#%d 'gi := #0 'gj := { %s } { \"body \" gi int.to.str$ * write$ newline$ gi #1 %s 'gi := gj #1 + 'gj := } while$ "
+                    '"done " gi int.to.str$ * " after " * gj int.to.str$ * write$ newline$')
+            # counting up from a negative start the predicate passes through -2, -1 and ends at 0; counting down from a positive one it ends at 0
+            out.append(full_program(DECLS + ['FUNCTION {main} { %s }' % (body % (start, pred, '+' if start <= 0 else '-')), 'READ', 'ITERATE {main}'],
+                                    'while', bibs=[BIB], cites=['Knuth84'], timeout=20, fuel=50000))
+    nested = ("#2 'gj := { gj #0 > } { #-2 'gi := { gi } { \"inner \" gi int.to.str$ * write$ newline$ gi #1 + 'gi := } while$ "
+              "gj #1 - 'gj := \"outer\" write$ newline$ } while$")
+    out.append(full_program(DECLS + ['FUNCTION {main} { %s }' % nested, 'READ', 'ITERATE {main}'], 'while', bibs=[BIB], cites=['Knuth84'], timeout=20))
+    # predicate and body given by name; a negative literal as the whole predicate is never true
+    out.append(full_program(DECLS + ["FUNCTION {p} { count #2 - }", "FUNCTION {b} { count #1 - 'count := cite$ write$ newline$ }",
+                                     "FUNCTION {main} { #4 'count := 'p 'b while$ count int.to.str$ write$ newline$ }", 'READ', 'ITERATE {main}'],
+                            'while', bibs=[BIB], timeout=20))
+    return out
+
+
+def sort_family(rng, n):
+    """SORT on keys that differ in letter case only / are equal / are empty / were never assigned: code-point order (upper case before
+    lower case), stable, a missing key sorts as the empty string."""
+    out = []
+    pool = ['a', 'A', 'b', 'B', 'ab', 'Ab', 'aB', 'AB', '', 'a b', 'Z', 'z', '{a}', '~', '_', 'a', 'B']
+    prog = ['ENTRY { note } { } { }',
+            "FUNCTION {presort} { note 'sort.key$ := }",
+            "FUNCTION {presort.some} { note empty$ 'skip$ { note \"l\" change.case$ \"x\" * 'sort.key$ := } if$ }",
+            'FUNCTION {show} { cite$ "=" * sort.key$ * write$ newline$ }', 'READ']
+
+    def one(keys, tail):
+        bib = ''.join('@misc{k%d%s}\n' % (i, ', note = {%s}' % k if k is not None else '') for i, k in enumerate(keys))
+        out.append(full_program(prog + tail, 'sort', bibs=[bib], cites=['*']))
+    tails = [['ITERATE {presort}', 'SORT', 'ITERATE {show}'], ['REVERSE {presort}', 'SORT', 'REVERSE {show}'], ['SORT', 'ITERATE {show}'],
+             ['ITERATE {presort.some}', 'SORT', 'ITERATE {show}', 'ITERATE {presort}', 'SORT', 'ITERATE {show}'],
+             ['ITERATE {presort}', 'SORT', 'SORT', 'ITERATE {show}'], ['ITERATE {presort}', 'sort', 'ITERATE {show}']]
+    for a, b in itertools.product(['a', 'A', 'b', 'B', 'ab', 'Ab', '', None], repeat=2):
+        one([a, b, a], tails[0])
+        one([b, a], tails[1])
+    for _ in range(n):
+        one([rng.choice(pool + [None]) for _ in range(rng.randint(2, 7))], rng.choice(tails))
+    return out
+
+
+def spell(name, how):
+    return {'lower': name.lower(), 'upper': name.upper(), 'title': name.title(), 'mixed': ''.join(c.upper() if i % 2 else c.lower() for i, c in enumerate(name))}[how]
+
+
+def command_case_family():
+    """Command names, and the names commands take as arguments, in other letter cases."""
+    out = []
+    prog = [('ENTRY', '{ title Note } { count } { label }'), ('INTEGERS', '{ gi }'), ('STRINGS', '{ gs }'), ('MACRO', '{foo} {"Foo"}'),
+            ('FUNCTION', '{Main} { cite$ ":" * TITLE * ":" * note * write$ newline$ Title \'SORT.KEY$ := }'),
+            ('FUNCTION', '{init} { "init" write$ newline$ }'), ('READ', ''), ('EXECUTE', '{INIT}'), ('ITERATE', '{main}'), ('SORT', ''),
+            ('REVERSE', '{MAIN}'), ('ITERATE', '{Main}')]
+    for how in ('lower', 'upper', 'title', 'mixed'):
+        out.append(full_program(['%s %s' % (spell(c, how), a) for c, a in prog], 'command-case', bibs=[BIB2A, BIB2B], cites=['*']))
+        for i in range(len(prog)):
+            out.append(full_program(['%s %s' % (spell(c, how) if j == i else c, a) for j, (c, a) in enumerate(prog)], 'command-case',
+                                    bibs=[BIB2A, BIB2B], cites=['*']))
+    return out
+
+
+def yaml_quote(x):
+    return '"%s"' % x.replace('\\', '\\\\').replace('"', '\\"')
+
+
+def alt_family(rng, n):
+    """A database delivered by another reader (bib_format=: the YAML reader), where persons arrive as Person objects and a person field
+    is read by the style as ' and '.join(str(person)): names without first names keep their empty First part ("Last, Jr," / "World Bank,")."""
+    out = []
+    firsts, middles = ['', '', 'John', 'J. R.', 'jean'], ['', '', 'M', 'de']
+    prelasts, lasts, lineages = ['', '', 'von', 'de la', 'Von'], ['Smith', 'World Bank', 'van Gogh', '{Barnes and Noble}', 'a B', 'X'], ['', '', 'Jr', 'III']
+    prog = ['ENTRY { title author editor year } { } { }',
+            'FUNCTION {names} { duplicate$ write$ newline$ duplicate$ num.names$ int.to.str$ write$ newline$ duplicate$ #1 "{ff }{vv }{ll}{, jj}" format.name$ '
+            'write$ newline$ duplicate$ #2 "{vv~}{ll}{, jj}{, f.}" format.name$ write$ newline$ duplicate$ missing$ int.to.str$ write$ newline$ '
+            'purify$ write$ newline$ }',
+            'FUNCTION {main} { cite$ ":" * title * ":" * year * ":" * preamble$ * write$ newline$ author names editor names }', 'READ', 'ITERATE {main}']
+
+    def person(spec):
+        return '\n'.join(('      - ' if i == 0 else '        ') + '%s: %s' % (k, yaml_quote(v)) for i, (k, v) in enumerate(spec))
+
+    def doc(entries, preamble):
+        lines = ['entries:']
+        for key, ty, fields, roles in entries:
+            lines.append('  %s:' % yaml_quote(key))
+            lines.append('    type: %s' % ty)
+            for k, v in fields:
+                lines.append('    %s: %s' % (k, yaml_quote(v)))
+            for role, ps in roles:
+                if ps:
+                    lines.append('    %s:' % role)
+                    lines.extend(person(p) for p in ps)
+        if preamble is not None:
+            lines.append('preamble: %s' % yaml_quote(preamble))
+        return '\n'.join(lines) + '\n'
+
+    def mkperson(f, m, pl, l, j):
+        return [(k, v) for k, v in (('first', f), ('middle', m), ('prelast', pl), ('last', l), ('lineage', j)) if v]
+    # systematic: every shape (with / without first, middle, von part, Jr) x every kind of last name, alone and as second of two
+    shapes = [mkperson(f, m, pl, l, j) for f in ('', 'John') for m in ('', 'M') for pl in ('', 'von') for l in lasts for j in ('', 'Jr')]
+    for i in range(0, len(shapes), 2):
+        ents = [('k1', 'article', [('title', 'T one'), ('year', '1999')], [('author', shapes[i:i + 2]), ('Editor', shapes[i + 1:i + 2])]),
+                ('k2', 'book', [('title', 'T two'), ('crossref', 'k1')], [('author', shapes[i + 1:i + 2])])]
+        out.append(full_program(prog, 'alt-reader', bibs=[doc(ents, 'PRE' if i % 4 == 0 else None)], cites=['*'], bib_format='yaml'))
+    for _ in range(n):
+        ents = []
+        for e in range(rng.randint(1, 3)):
+            roles = []
+            for role in ('author', 'editor'):
+                ps = [mkperson(rng.choice(firsts), rng.choice(middles), rng.choice(prelasts), rng.choice(lasts), rng.choice(lineages))
+                      for _ in range(rng.randint(0, 3))]
+                roles.append((rng.choice([role, role.title(), role.upper()]), ps))
+            fields = [('title', rng.choice(['T', 'A {B} c'])), ('year', '19%02d' % rng.randint(0, 99))]
+            if e > 0 and rng.random() < 0.5:
+                fields.append(('crossref', 'k0'))
+            ents.append(('k%d' % e, rng.choice(['article', 'Book', 'misc']), fields, roles))
+        out.append(full_program(prog, 'alt-reader', bibs=[doc(ents, rng.choice([None, 'pre {x}', '']))],
+                                cites=rng.choice([['*'], ['k0'], ['k1', 'K0'], ['k2', 'k1'], ['nokey', 'k0']]), bib_format='yaml',
+                                mc=rng.choice([1, 2])))
+    return out
+
+
+def pool2_random(rng, n, length):
+    """random well-typed sequences of exactly `length` units over both pools with at least one unit of the second pool"""
+    allu = UNITS + UNITS2
+    second = set(id(u) for u in UNITS2)
+    done = 0
+    while done < n:
+        seq, stack, used = [], [], False
+        for _ in range(length):
+            fit = [u for u in allu if len(stack) >= len(u[1]) and (not u[1] or stack[-len(u[1]):] == u[1])]
+            u = rng.choice(fit)
+            seq.append(u[0])
+            stack = stack[:len(stack) - len(u[1])] + u[2]
+            used = used or id(u) in second
+        if used:
+            done += 1
+            yield seq, stack
+
+
 def gen_cases(tier, rng, info):
-    cases = []
+    cases = list(while_family())      # first: its well-typed programs are the failing input to report for a change of the loop condition
     maxlen = 2 if tier == 'quick' else 3
     na = 0
     for body, types in assign_sequences(2 if tier == 'quick' else 3):
@@ -538,6 +1011,26 @@ def gen_cases(tier, rng, info):
     for _ in range(1500 if tier == 'quick' else 30000):
         cases.append({'op': 'bstrun', 'bst': random_program(rng), 'bibs': [BIB], 'citations': rng.choice(cite_sets),
                       'min_crossrefs': rng.choice([1, 2]), 'family': 'random', 'welltyped': True})
+    # second wave
+    n2 = 0
+    for body, types in pool2_sequences(2):
+        cases.append(mk2(' '.join(body), types, 'pool2-%d' % len(body)))
+        n2 += 1
+    if tier != 'quick':
+        for body, types in pool2_random(rng, 40000, 3):
+            cases.append(mk2(' '.join(body), types, 'pool2-3-sample', cites=rng.choice([CITES, ['*'], ['parent', 'KNUTH84']])))
+    second = (errors_family() + declaration_family() + macro_family(rng, 300 if tier == 'quick' else 6000) +
+              execute_family(rng, 300 if tier == 'quick' else 6000) + execute_scope_family() + command_case_family() +
+              sort_family(rng, 200 if tier == 'quick' else 4000) +
+              alt_family(rng, 150 if tier == 'quick' else 3000))
+    cases.extend(second)
+    info['scope'] += ('; second pool: all %d well-typed sequences of length <= 2 over both pools that use one of the %d units of the second '
+                      'pool (change.case$ modes in either case and longer, names of fields / variables / built-ins in other letter cases, '
+                      'white space other than the blank, int.to.chr$ / chr.to.int$ at the edges of their ranges, < and > on strings, lines '
+                      'longer than 79 characters; two .bib files with macros, @string, two @preamble); %d systematic programs: error outcomes of '
+                      'change.case$ / int.to.chr$ / chr.to.int$, declaration errors, MACRO redefinition and shadowing, EXECUTE before and after '
+                      'ITERATE (with the probes of "EXECUTE runs outside any entry"), while$ with predicates below 0, command names in other '
+                      'letter cases, a database delivered by another reader (bib_format) with person fields' % (n2, len(UNITS2), len(second) + len(while_family())))
     return cases
 
 
@@ -549,8 +1042,11 @@ LEVEL_TEXT = ('Machine-checked proof (Lean 4) about an executable model of the B
               'if$ and the unfolding law of while$; fuel monotonicity and determinism of the six mutually recursive execution functions; '
               'ITERATE / REVERSE as the left fold over the citation list in order / in reverse; SORT = the unique stable sort by sort.key$ under '
               'code-point lexicographic order; scoping (entry variables of other entries untouched, global variables persist, functions never '
-              'redefined by execution); ENTRY / INTEGERS / STRINGS / FUNCTION / MACRO declare exactly what they list; the .bbl text is the rendering of '
-              'the run\'s write$/newline$ events. The string built-ins are tied to the theorems of C12 (substring$, text.length$, text.prefix$, purify$, '
+              'redefined by execution); ENTRY / INTEGERS / STRINGS / FUNCTION / MACRO declare exactly what they list; READ = the parse of the .bib '
+              'texts with the MACRO table as initial macros and no person fields, citations = removeMissing (addExtraCitations ...), preamble$ = the '
+              'flattened preamble, the resulting database is well formed so that the C05 (order) and C14 (inherited fields) theorems apply; no '
+              'entry is current outside ITERATE / REVERSE (EXECUTE runs outside any entry); the .bbl text is the rendering of the trace of the '
+              'run = the list of write$ / newline$ calls executed. The string built-ins are tied to the theorems of C12 (substring$, text.length$, text.prefix$, purify$, '
               'change.case$), C11 (format.name$) and C19 (newline$). The model is tied to the code by a correspondence check that is exhaustive over '
               'well-typed straight-line programs of 90 typed units up to the tier length and over every built-in on every ill-typed stack of depth '
               '0..3 over one operand of each kind, plus seeded random structured programs and the golden styles.')
@@ -568,6 +1064,7 @@ LEVEL_NOTE = ('Trusted: Lean kernel; axioms propext/Classical.choice/Quot.sound 
               'the repr of an object, or the failure is deferred): int.to.str$ and warning$ on a function / variable object, the format.name$ warning '
               '(name number < 1) when names is such an object, and write$ of a non-string (Python appends it and fails with TypeError at the next '
               'newline$, or never if none follows); int.to.chr$ of an integer outside the C int range is an OverflowError (internal), not the '
-              'BibTeXError of the other out-of-range integers. Observations, not violations of the property as stated: the pinned code implements + '
+              'BibTeXError of the other out-of-range integers; int.to.chr$ of a surrogate code point (Python returns a lone surrogate; marked '
+              'unmodelled, never another character). Observations, not violations of the property as stated: the pinned code implements + '
               'and * by one Python operator (C03_builtin_plus_mul_same) and INTEGERS / STRINGS silently overwrite an existing binding '
               '(C03_declare_globals).')
